@@ -1,2 +1,38 @@
-(* C08 - every basis handed out is well-formed (theorems added as they are proved) *)
-From BSE Require Import Model.Val Model.Basis Model.Manip.
+(* C08 - every basis handed out is well-formed.
+   Statements are in Proofs/C08Defs.v.  get_basis_pipeline is Gen/GenApi.v = the option pipeline of api.get_basis as it
+   is written now; run_get_basis_options interprets it over the model of manip.py (Model/Pipeline.v). *)
+From BSE Require Import Model.Val Model.Num Model.Basis Model.Manip Model.ManipS Model.Pipeline Gen.GenApi Gen.GenConsts.
+From BSE Require Import Proofs.FSDefs Proofs.C08Defs Proofs.NumDefs Proofs.NumInstance Proofs.PrunePost Proofs.PipelineFS Proofs.WfCompute.
+
+(* whatever rectangular, not entirely zero shells go in, pruning establishes: exponents pairwise different by value, every
+   primitive used, no all-zero contraction, rectangular coefficients, and no two structurally equal shells *)
+Theorem prune_establishes_the_rules : prune_post_stmt is0_s same_s String.eqb.
+Proof. exact (@PrunePost.prune_post _ _ _ _ _ _ _ PipelineFS.K). Qed.
+Print Assumptions prune_establishes_the_rules.
+
+Theorem prune_basis_establishes_the_rules : prune_basis_post_stmt is0_s same_s String.eqb.
+Proof. exact (@PrunePost.prune_basis_post _ _ _ _ _ _ _ PipelineFS.K). Qed.
+Print Assumptions prune_basis_establishes_the_rules.
+
+(* all 8 subsets of {uncontract_general, uncontract_spdf, make_general} through the translated pipeline: same function set,
+   well-formed, pruned *)
+Theorem pipeline_three_flags : pipeline3_FS_stmt.
+Proof. exact PipelineFS.pipeline3_FS. Qed.
+Print Assumptions pipeline_three_flags.
+
+(* all 32 subsets of the five flags other than optimize_general: well-formed and pruned output, same elements, every field
+   other than the shells untouched *)
+Theorem pipeline_five_flags_wf : pipeline5_wf_stmt.
+Proof. exact PipelineFS.pipeline5_wf. Qed.
+Print Assumptions pipeline_five_flags_wf.
+
+Theorem pipeline_uncontract_segmented : pipeline_unc_seg_stmt.
+Proof. exact PipelineFS.pipeline_unc_seg. Qed.
+Print Assumptions pipeline_uncontract_segmented.
+
+Definition demo_shells : list (shell string) :=
+  [ mkShell "gto" "" [0%Z; 1%Z] ["5.0"; "1.2"] [["0.1"; "0.9"]; ["0.2"; "0.8"]];
+    mkShell "gto" "" [0%Z] ["30.0"; "5.00"; "0.4"] [["0.3"; "0.7"; "0.0"]; ["0.0"; "0.0"; "1.0"]];
+    mkShell "gto_spherical" "" [2%Z] ["0.8"] [["1.0"]] ].
+Example demo_wf : wf_shells is0_s demo_shells /\ Forall (fused_low 0 (N:=string)) demo_shells.
+Proof. split; [apply wf_shellsb_ok | apply fused_lowb_ok]; vm_compute; reflexivity. Qed.
